@@ -483,6 +483,24 @@ class SymDomain(BaseDomain):
                                  "Generator", standard_normal=lambda size=None: d.rng_randn(*(size if isinstance(size, tuple) else (size,))),
                                  normal=lambda loc=0.0, scale=1.0, size=None: d.rng_randn(*(size if isinstance(size, tuple) else (size,))))),
         )
+        # `out=` of the elementwise functions: the result is stored INTO the given array (through the interpreter's own setitem, so
+        # views of caller data are written through) and that array is returned
+        def with_out(fn):
+            def g(*a, out=None, **k):
+                r = fn(*a, **k)
+                if out is None:
+                    return r
+                if isinstance(out, tuple) and len(out) == 1:
+                    out = out[0]
+                if not isinstance(out, SymArr):
+                    raise Unsupported("out= with a non-array target")
+                d.setitem(d._interp, out, Ellipsis, r, getattr(d, "_cur_node", None))
+                return out
+            return g
+        for nm in ("square", "abs", "absolute", "sqrt", "negative", "conj", "conjugate", "exp", "sign", "real", "imag",
+                   "maximum", "minimum", "fmax", "fmin", "clip", "round", "around", "power", "divide", "true_divide"):
+            if nm in ns.__dict__ and not isinstance(ns.__dict__[nm], (_UFunc, _ArithUFunc)):
+                ns.__dict__[nm] = with_out(ns.__dict__[nm])
         return ns
 
     def np_zeros(self, shape, dtype=None, **k):
@@ -1614,6 +1632,10 @@ class SymDomain(BaseDomain):
                 return power
             if attr == "multiply":
                 return lambda b: SymArr(np.asarray(a, dtype=object) * np.asarray(b, dtype=object), a.kind, True)
+            if attr in ("eliminate_zeros", "sort_indices", "sum_duplicates", "prune"):
+                # in-place normalisations of the STORAGE: the matrix (its entries) is unchanged - whether the receiver may be the
+                # caller's object is an effect question (C14), not a value question
+                return lambda *x, **k: None
             if attr == "nnz":
                 # number of stored entries of the canonical storage of THIS matrix: its entries that are not identically zero
                 # (explicitly stored zeros / duplicates are a property of a particular container, see .data)
